@@ -65,6 +65,12 @@ pub fn stub_random_state_new() -> std::hash::RandomState {
 }
 
 fn run<const N: usize>(names: [Nm; N], with_gate: bool) {
+    run_g::<N>(names, with_gate, None)
+}
+
+/// `gaps`: Some = the gap (in pages) before each line is concrete (adjacency is then a shape and the
+/// merge conditions fold partially); None = symbolic 0..2 pages.
+fn run_g<const N: usize>(names: [Nm; N], with_gate: bool, gaps: Option<[u64; N]>) {
     let k0: u64 = kani::any();
     kani::assume(k0 >= 16 && k0 < (1u64 << 34));
     let mut s = [0u64; N];
@@ -74,7 +80,10 @@ fn run<const N: usize>(names: [Nm; N], with_gate: bool) {
     let mut lines: Vec<MemoryMap> = Vec::with_capacity(N);
     let mut cur = k0 << 12;
     for i in 0..N {
-        let gap: u64 = kani::any();
+        let gap: u64 = match gaps {
+            Some(g) => g[i],
+            None => kani::any(),
+        };
         let pages: u64 = kani::any();
         kani::assume(gap <= 2 && pages >= 1 && pages <= 8);
         s[i] = cur + (gap << 12);
@@ -198,6 +207,22 @@ macro_rules! agg {
         }
     };
 }
+macro_rules! aggg {
+    ($name:ident, $n:expr, $names:expr, $gaps:expr) => {
+        #[kani::proof]
+        #[kani::unwind(12)]
+        #[kani::stub(std::hash::RandomState::new, crate::verif::c13_aggregate::stub_random_state_new)]
+        fn $name() {
+            use Nm::*;
+            run_g::<$n>($names, false, Some($gaps));
+        }
+    };
+}
+aggg!(c13_2_same_adjacent, 2, [A, A], [0, 0]);
+aggg!(c13_2_same_apart, 2, [A, A], [0, 1]);
+aggg!(c13_2_diff_adjacent, 2, [A, B], [0, 0]);
+aggg!(c13_2_file_anon_adjacent, 2, [A, Anon], [0, 0]);
+aggg!(c13_3_fold_adjacent, 3, [A, Anon, A], [0, 0, 0]);
 agg!(c13_2_same, 2, [A, A], false);
 agg!(c13_2_deleted_same, 2, [ADeleted, A], false);
 agg!(c13_2_diff, 2, [A, B], false);
